@@ -177,7 +177,12 @@ def _context_manager_pairs(prog, rep, inventory):
                                     saves.append((-1, st.targets[0].attr))
                                     init_save = True
         if not saves:
-            rep.ob("R20.2", construct, False, f"{g} is overridden in {cname}.__enter__ but its previous value is never saved on the instance: __exit__ cannot restore it", loc=ent.loc, detail="no-save")
+            reads_anywhere = [m_.name for m_ in C.methods.values() for x_ in walk_local(m_.node, include_self=False)
+                              if isinstance(x_, ast.Attribute) and isinstance(x_.ctx, ast.Load) and dotted(x_) and resolve_dotted(dotted(x_), prog.func_aliases(m_)) == g]
+            if reads_anywhere:
+                rep.undecided(f"{construct}: {cname}.{reads_anywhere[0]} reads {g}, but not in the `self.<attr> = {g}` form this rule follows; where the previous value is kept is not decided")
+                continue
+            rep.ob("R20.2", construct, False, f"{g} is overridden in {cname}.__enter__ and no method of {cname} ever reads its previous value: __exit__ cannot restore it", loc=ent.loc, detail="no-save")
             continue
         attr = saves[0][1]
         nested_over = [n for n in walk_local(ent.node, include_self=False) if isinstance(n, ast.Assign) and any(isinstance(t, ast.Attribute) and dotted(t) and resolve_dotted(dotted(t), aliases) == g for t in n.targets)]
@@ -190,7 +195,7 @@ def _context_manager_pairs(prog, rep, inventory):
         last = max(i for i, _ in overrides) if overrides else -1
         tail = ent.node.body[last + 1:]
         risky = [st for st in tail if any(isinstance(x, (ast.Call, ast.Raise, ast.Subscript, ast.BinOp, ast.Await)) for x in ast.walk(st))]
-        rep.ob("R20.2", construct, not risky, "nothing after the override inside __enter__ can raise (an exception there would skip __exit__)" if not risky else f"`{src(risky[0])[:60]}` runs after the override inside __enter__ and may raise: __exit__ is then never called and {g} stays overridden", loc=f"{ent.module.rel}:{(risky[0].lineno if risky else ent.node.lineno)}", detail="enter-tail")
+        rep.ob("R20.2", construct, not risky, "nothing after the override inside __enter__ can raise (an exception there would skip __exit__)" if not risky else f"`{src(risky[0])[:60]}` runs after the override inside __enter__ and may raise: __exit__ is then never called and {g} stays overridden", loc=f"{ent.module.rel}:{(risky[0].lineno if risky else ent.node.lineno)}", detail="enter-tail", robust=False)
         # (b) __exit__ restores first
         if ext is None:
             rep.ob("R20.2", construct, False, f"{cname} has no __exit__: {g} is never restored", loc=C.loc, detail="restore-on-all-exits")
@@ -234,6 +239,9 @@ def _context_manager_pairs(prog, rep, inventory):
                                 continue
                             if m.name == "__init__" and (isinstance(getattr(n, "value", None), ast.Constant) or init_save):
                                 continue
+                            if m.name == "__exit__" and isinstance(getattr(n, "value", None), ast.Constant) and any(
+                                    isinstance(r_, ast.Assign) and r_.lineno < n.lineno and src(r_.value) == f"{m.node.args.args[0].arg}.{attr}" for r_ in walk_local(m.node, include_self=False)):
+                                continue            # cleared after it was re-installed
                             stray.append((m, n))
         rep.ob("R20.2", construct, not stray, f"self.{attr} is written only by the save in __enter__" if not stray else f"self.{attr} is also written in {stray[0][0].name} (`{src(stray[0][1])[:50]}`): the restore may not install the original", loc=f"{C.module.rel}:{stray[0][1].lineno}" if stray else C.loc, detail="save-reassigned")
         # (d) instances are entered only through `with`
@@ -248,7 +256,7 @@ def _context_manager_pairs(prog, rep, inventory):
                     else:
                         rep.undecided(f"{construct}: instance created at {fi.module.rel}:{n.lineno} is not bound to a local name or used directly in `with`")
                 if isinstance(n, ast.Call) and isinstance(n.func, ast.Attribute) and n.func.attr in ("__enter__", "__exit__") and isinstance(n.func.value, ast.Name) and n.func.value.id in inst:
-                    rep.ob("R20.2", construct, False, f"{fi.name} calls {src(n.func)} by hand: the exit is no longer guaranteed by the with statement", loc=f"{fi.module.rel}:{n.lineno}", detail="manual-enter")
+                    rep.undecided(f"{construct}: {fi.name} calls {src(n.func)} by hand ({fi.module.rel}:{n.lineno}); whether every exit still reaches __exit__ is then a matter of that function's try/finally, which this rule does not follow")
         if init_save:
             # captured at creation: the instance must be created where it is entered (a module-level / long-lived
             # instance would restore a stale value)
@@ -309,8 +317,15 @@ def check(prog, rep):
             if from_param:
                 rep.undecided(f"{construct}: writes {g} from its parameter(s) ({', '.join(sorted({v_.id for v_ in from_param}))}); the save / restore pairing spans its callers and is not decided by this rule")
                 continue
+            getter_ = GLOBAL_SETTERS.get(g)
+            reads_ = [x_ for x_ in ast.walk(fi.node) if isinstance(x_, (ast.Attribute, ast.Name)) and isinstance(getattr(x_, "ctx", None), ast.Load) and dotted(x_)
+                      and resolve_dotted(dotted(x_), aliases) in ((g, getter_) if not g.endswith("seterr") else (getter_,))
+                      and not (resolve_dotted(dotted(x_), aliases) == g and isinstance(getattr(x_, "_parent", None), ast.Call) and x_._parent.func is x_)]
+            if reads_:
+                rep.undecided(f"{construct}: the previous value of {g} is read at line {reads_[0].lineno}, but not into a local in the form this rule follows; the save / restore pairing is not decided")
+                continue
             rep.ob("R20.2", construct, False,
-                   f"{g} is written but its previous value is never saved in this function: it cannot be restored",
+                   f"{g} is written but its previous value is never read in this function: it cannot be restored",
                    loc=f"{fi.module.rel}:{sites[0][1].lineno}", detail="no-save")
             continue
         for nm in saved:
@@ -463,6 +478,16 @@ def check(prog, rep):
                     if (isinstance(b, ast.Name) and b.id in names) or (isinstance(b, ast.Attribute) and dotted(b.value) in recv and b.attr == a):
                         later_fill.append(s)
             empty = isinstance(val, (ast.Dict, ast.List, ast.Set)) and not (getattr(val, "keys", None) or getattr(val, "elts", None))
+            if empty and not later_fill:
+                # an empty container is only "unfinished" if this function goes on to fill it entry by entry
+                for s in walk_local(fi.node, include_self=False):
+                    if getattr(s, "lineno", 0) > n.lineno and isinstance(s, ast.Assign):
+                        for t in s.targets:
+                            if isinstance(t, ast.Subscript) and ((isinstance(t.value, ast.Name) and t.value.id in names) or (isinstance(t.value, ast.Attribute) and dotted(t.value.value) in recv and t.value.attr == a)):
+                                later_fill.append(s)
+                if not later_fill:
+                    rep.ob("R20.4", construct, True, "published as an empty container that this function does not go on to fill (a reset)", loc=f"{fi.module.rel}:{n.lineno}", detail="publish-complete", trivial=True)
+                    continue
             rep.ob("R20.4", construct, not later_fill and not empty,
                    f"published in one assignment from a finished value ({src(val)[:50]})"
                    if not later_fill and not empty else
@@ -513,6 +538,8 @@ def _handler_fails_closed(h):
         # records the exception in a local for the code after the try to act on?  then the verdict depends on that code
         if h.name and any(isinstance(n, ast.Assign) and any(isinstance(x, ast.Name) and x.id == h.name for x in ast.walk(n.value)) for st in h.body for n in ast.walk(st)):
             return None, f"the handler stores the exception ({h.name}) and falls through: what the code after the try does with it is not followed"
+        if any(isinstance(n, (ast.Assign, ast.AugAssign, ast.AnnAssign)) for st in h.body for n in ast.walk(st)):
+            return None, "the handler records something in a local and falls through: what the code after the try does with it is not followed"
         return False, "the handler can fall through and continue the solve with no result (exception swallowed)"
     for r in outs:
         v = r.value
@@ -524,7 +551,13 @@ def _handler_fails_closed(h):
             if v.args and src(v.args[0]).endswith("FAILED"):
                 ok = True
         if not ok:
-            return False, f"the handler returns {src(v)[:60] if v is not None else 'None'} which is not a FAILED solution"
+            if v is None or isinstance(v, ast.Constant):
+                return False, f"the handler returns {src(v)[:60] if v is not None else 'None'} which is not a FAILED solution"
+            if isinstance(v, ast.Call) and (dotted(v.func) or "").split(".")[-1] == "Solution":
+                st_ = next((kw.value for kw in v.keywords if kw.arg == "status"), v.args[0] if v.args else None)
+                if st_ is not None and isinstance(st_, ast.Attribute) and src(st_.value).split(".")[-1] == "SolverStatus":
+                    return False, f"the handler returns {src(v)[:60]}, a solution whose status is {st_.attr}, not FAILED"
+            return None, f"the handler returns {src(v)[:60]}; whether that is a FAILED solution is not visible here (built elsewhere)"
     return True, "every exit of the handler is `raise` or `return Solution(status=FAILED)`"
 
 
@@ -594,6 +627,24 @@ def _cache_keys(prog, rep, pm):
             if prod_keys is None:
                 raise AnalysisError(f"no publication site of Problem.{a} found")
             for k in uncond:
+                if k not in prod_keys:
+                    # a guard this must-analysis does not read (a test mentioning the key in another form, a KeyError handler)?
+                    from ..astutil import dominating_guards as _dg, preceding_exit_guards as _pg
+                    other = False
+                    for x_, guarded_ in reads[k]:
+                        if guarded_:
+                            continue
+                        for t_, _pol in _dg(x_) + _pg(x_):
+                            if any(isinstance(c_, ast.Constant) and c_.value == k for c_ in ast.walk(t_)) or any(isinstance(c_, ast.Call) and any(isinstance(y_, ast.Name) and y_.id in alias for y_ in ast.walk(c_)) for c_ in ast.walk(t_)):
+                                other = True
+                        p_ = getattr(x_, "_parent", None)
+                        while p_ is not None and p_ is not fi.node:
+                            if isinstance(p_, ast.Try) and p_.handlers and any(x_ is y_ for st_ in p_.body for y_ in ast.walk(st_)):
+                                other = True
+                            p_ = getattr(p_, "_parent", None)
+                    if other:
+                        rep.undecided(f"R20.4 Problem.{a}[{k!r}]: read in {fi.name} under a test / handler that this rule does not interpret; whether a cache published without the key can reach the read is not decided")
+                        continue
                 rep.ob("R20.4", f"Problem.{a}[{k!r}]", k in prod_keys,
                        f"key {k!r} read unconditionally in {fi.name} is stored on every path of the producer before publication"
                        if k in prod_keys else
